@@ -1,6 +1,7 @@
 import GmqttVerif.Model.Deliver
 import GmqttVerif.Model.Broker
 import GmqttVerif.Proofs.Deliver
+import GmqttVerif.Generated.MuHeld
 /-
   C01 — PUBLISH reaches exactly the matching subscribers, at the right QoS, in order.
 
@@ -124,3 +125,18 @@ example : newH exB (exB.publish { conn := "p", topic := "", qos := 1, pid := 7 }
   decide
 
 end GmqttVerif.Broker
+
+/-! ### premise of the broker-level order theorem, re-read from the source on every run -/
+namespace GmqttVerif.C01
+open GmqttVerif.Generated
+
+/-- Every call of `(*server).deliverMessage`, and of every `…Locked` helper of `*server`, in package server runs with
+    `srv.mu` held: it follows a `mu.Lock()` (or `lockDuplicatedID`, which returns holding the lock) with no `mu.Unlock()`
+    in between, or sits in a `…Locked` function / in `deliverMessage`'s own handler. This is the premise under which one
+    `deliverMessage` is ONE atomic step of the broker model (`Broker.per_publisher_order`, `Broker.publish_ack_same_id`)
+    and publishes have a single total order. `Generated/MuHeld.lean` is rewritten from server/*.go on every check run
+    (`harness/cmd/extract/muheld.go`, a syntactic reading — see there for what it does not follow). -/
+theorem deliver_runs_under_server_mu :
+    muCallSiteCodes.all (· ≠ 0) = true ∧ 0 < muDeliverSites ∧ muCallSiteCodes.length = muCallSites.length := by decide
+
+end GmqttVerif.C01
